@@ -224,3 +224,54 @@ Lemma defaults_facts :
   lookup "serialize_unit_struct" expected_defaults = Some "as:serialize_unit" /\
   forallb (fun e : string * string => String.eqb (snd e) "fail" || existsb (String.eqb (fst e)) ["serialize_some"; "serialize_newtype_struct"; "serialize_unit"; "serialize_unit_struct"]) expected_defaults = true.
 Proof. repeat split; reflexivity. Qed.
+
+(* ---- the numeric casts (float_builder.rs, float_impls.rs): each scalar method of the Float32 / Float64 builders stores the DIRECT cast of
+   its argument (`v as f32`, never a detour through the other width), chars go through u32, the same width is stored as is; the readers
+   hand out the stored value, `as f64` or `as f32`.  This is the route the model takes (Base/FloatOfInt.v: float_of_int for integers and
+   chars, convert_float between the widths, the identity otherwise); Float16 goes through the `half` crate and is outside the model. *)
+Definition expected_float_casts : list (string * string * string) := [
+  ("FloatBuilder<f32>", "serialize_i8", "v as f32");
+  ("FloatBuilder<f32>", "serialize_i16", "v as f32");
+  ("FloatBuilder<f32>", "serialize_i32", "v as f32");
+  ("FloatBuilder<f32>", "serialize_i64", "v as f32");
+  ("FloatBuilder<f32>", "serialize_u8", "v as f32");
+  ("FloatBuilder<f32>", "serialize_u16", "v as f32");
+  ("FloatBuilder<f32>", "serialize_u32", "v as f32");
+  ("FloatBuilder<f32>", "serialize_u64", "v as f32");
+  ("FloatBuilder<f32>", "serialize_f32", "v");
+  ("FloatBuilder<f32>", "serialize_f64", "v as f32");
+  ("FloatBuilder<f32>", "serialize_char", "u32::from(v) as f32");
+  ("FloatBuilder<f64>", "serialize_i8", "v as f64");
+  ("FloatBuilder<f64>", "serialize_i16", "v as f64");
+  ("FloatBuilder<f64>", "serialize_i32", "v as f64");
+  ("FloatBuilder<f64>", "serialize_i64", "v as f64");
+  ("FloatBuilder<f64>", "serialize_u8", "v as f64");
+  ("FloatBuilder<f64>", "serialize_u16", "v as f64");
+  ("FloatBuilder<f64>", "serialize_u32", "v as f64");
+  ("FloatBuilder<f64>", "serialize_u64", "v as f64");
+  ("FloatBuilder<f64>", "serialize_f32", "v as f64");
+  ("FloatBuilder<f64>", "serialize_f64", "v");
+  ("FloatBuilder<f64>", "serialize_char", "u32::from(v) as f64");
+  ("FloatBuilder<f16>", "serialize_f32", "f16::from_f32(v)");
+  ("FloatBuilder<f16>", "serialize_f64", "f16::from_f64(v)");
+  ("Float for f16", "into_f32", "Ok(self.to_f32())");
+  ("Float for f16", "into_f64", "Ok(self.to_f64())");
+  ("Float for f32", "into_f32", "Ok(self)");
+  ("Float for f32", "into_f64", "Ok(self as f64)");
+  ("Float for f64", "into_f32", "Ok(self as f32)");
+  ("Float for f64", "into_f64", "Ok(self)")
+].
+
+Definition float_casts_ok : bool := list_eqb' triple_eqb float_casts expected_float_casts.
+
+(* read off the expected table: every integer method of a float builder casts once, to the builder's own width *)
+Lemma float_casts_facts :
+  forallb (fun w : string =>
+    forallb (fun m : string => existsb (triple_eqb ("FloatBuilder<" ++ w ++ ">", m, "v as " ++ w)) expected_float_casts)
+      ["serialize_i8"; "serialize_i16"; "serialize_i32"; "serialize_i64"; "serialize_u8"; "serialize_u16"; "serialize_u32"; "serialize_u64"])
+    ["f32"; "f64"] = true
+  /\ existsb (triple_eqb ("FloatBuilder<f32>", "serialize_f64", "v as f32")) expected_float_casts = true
+  /\ existsb (triple_eqb ("FloatBuilder<f64>", "serialize_f32", "v as f64")) expected_float_casts = true
+  /\ existsb (triple_eqb ("Float for f64", "into_f32", "Ok(self as f32)")) expected_float_casts = true
+  /\ existsb (triple_eqb ("Float for f32", "into_f64", "Ok(self as f64)")) expected_float_casts = true.
+Proof. repeat split; vm_compute; reflexivity. Qed.
